@@ -277,7 +277,8 @@ fn format_expression_internal(
                     })
                     .collect();
 
-                format_expression(ctx, expression, shape)
+                // Keep the context: the inner expression now stands where the parentheses stood
+                format_expression_internal(ctx, expression, context, shape)
                     .update_leading_trivia(FormatTriviaType::Append(leading_comments))
                     .update_trailing_trivia(FormatTriviaType::Append(trailing_comments))
             } else {
